@@ -41,7 +41,7 @@ func genC05(t *rapid.T) Scenario {
 	n := rapid.IntRange(0, 5).Draw(t, "nDisturb")
 	for i := 0; i < n; i++ {
 		x := rapid.IntRange(0, 1).Draw(t, "who")
-		op := HubOp{K: rapid.SampledFrom([]string{"disconnect", "disconnect", "cut", "cut", "halfcut", "refuse", "disappear", "appear"}).Draw(t, "disturb"), X: x, Y: 1 - x, WaitMs: w("disturbWait")}
+		op := HubOp{K: rapid.SampledFrom([]string{"disconnect", "disconnect", "cut", "cut", "refuse", "disappear", "appear", "restart"}).Draw(t, "disturb"), X: x, Y: 1 - x, WaitMs: w("disturbWait")}
 		op.Conc = rapid.IntRange(0, 3).Draw(t, "conc") == 0
 		sc.Ops = append(sc.Ops, op)
 	}
@@ -80,6 +80,13 @@ func judgeC05(sc Scenario) (key, msg string, nontrivial bool) {
 		return "harness", r.Herr, false
 	}
 	f := r.F
+	// the property speaks of two hubs that have registered each other: a register that did not
+	// take place (issued while that hub was being restarted) puts the scenario outside of it
+	for _, o := range r.Ops {
+		if o.Op.K == "register" && o.Skipped {
+			return "", "", false
+		}
+	}
 	echo := 0
 	why := ""
 	ok := WaitFor(40*time.Second, func() bool {
@@ -97,7 +104,7 @@ func judgeC05(sc Scenario) (key, msg string, nontrivial bool) {
 	dials := len(f.Proxies[[2]int{0, 1}].Accepts()) > 0 && len(f.Proxies[[2]int{1, 0}].Accepts()) > 0
 	disturbed := false
 	for _, o := range r.Ops {
-		if !o.Skipped && (o.Op.K == "disconnect" || o.Op.K == "cut") {
+		if !o.Skipped && (o.Op.K == "disconnect" || o.Op.K == "cut" || o.Op.K == "halfcut" || o.Op.K == "restart") {
 			disturbed = true
 		}
 	}
@@ -216,11 +223,16 @@ func genC11Hub(t *rapid.T) Scenario {
 		}
 	}
 	sc.Ops = append(sc.Ops, HubOp{K: "wait", WaitMs: rapid.SampledFrom([]int{200, 900, 1800}).Draw(t, "w0")})
+	halfcuts := 0
 	n := rapid.IntRange(2, 10).Draw(t, "nOps")
 	for i := 0; i < n; i++ {
 		x := rapid.IntRange(0, 2).Draw(t, "x")
 		y := (x + 1 + rapid.IntRange(0, 1).Draw(t, "dy")) % 3
-		k := rapid.SampledFrom([]string{"cut", "cut", "halfcut", "halfcut", "disconnect", "cancel", "unregister", "register", "disappear", "appear", "wait"}).Draw(t, "op")
+		k := rapid.SampledFrom([]string{"cut", "cut", "cut", "disconnect", "disconnect", "cancel", "unregister", "register", "disappear", "appear", "wait", "wait"}).Draw(t, "op")
+		if k == "wait" && halfcuts == 0 && rapid.IntRange(0, 5).Draw(t, "half") == 0 {
+			k = "halfcut" // at most one per scenario: the hub that keeps the stale connection only notices after the 60 s pong timeout
+			halfcuts++
+		}
 		sc.Ops = append(sc.Ops, HubOp{K: k, X: x, Y: y, WaitMs: rapid.SampledFrom([]int{0, 0, 30, 250, 700, 1500}).Draw(t, "wait"),
 			Conc: rapid.IntRange(0, 4).Draw(t, "conc") == 0})
 	}
@@ -372,6 +384,15 @@ func judgeC11b(sc Scenario) (key, msg string, nontrivial bool) {
 		return "harness", r.Herr, false
 	}
 	f := r.F
+	// a half cut leaves one hub with a connection it can only recognise as dead when its pong
+	// wait (60 s) runs out: the two hubs legitimately disagree until then
+	for _, o := range r.Ops {
+		if o.Op.K == "halfcut" && !o.Skipped {
+			if wait := o.End + 68*time.Second - time.Since(f.start); wait > 0 {
+				time.Sleep(wait)
+			}
+		}
+	}
 	if !f.Quiet(settleQuiet+500*time.Millisecond, 25*time.Second) {
 		return "inconclusive", "did not settle", false
 	}
